@@ -28,6 +28,12 @@
 #include "login.h"
 
 #include "snoopy.h"
+#ifdef SNOOPY_CONF_THREAD_SAFETY_ENABLED
+#include "tsrm.h"
+#else
+#define snoopy_tsrm_libcGuard_enter()
+#define snoopy_tsrm_libcGuard_leave()
+#endif
 
 #include <stdio.h>
 #include <stdlib.h>
@@ -63,6 +69,7 @@ int snoopy_datasource_login (char * const resultBuf, size_t resultBufSize, __att
     int          loginSizeMaxWithNull    = SNOOPY_DATASOURCE_LOGIN_loginSizeMaxWithNull;
     char         login[SNOOPY_DATASOURCE_LOGIN_loginSizeMaxWithNull];   // Not static: a shared buffer is a data race between threads
     const char * loginptr = NULL;
+    int          getloginStatus;
 
     /*
      * Retrive the user login trying in order:
@@ -74,7 +81,12 @@ int snoopy_datasource_login (char * const resultBuf, size_t resultBufSize, __att
      * Defaults        env_reset
      * Defaults        env_keep="LOGNAME"
     */
-    if (0 != getlogin_r(login, loginSizeMaxWithNull)) {
+    // Where /proc/self/loginuid is absent, getlogin_r() searches utmp with libc's own reader, under a libc-internal
+    // lock that fork() does not reset in the child (like the time zone lock - see tsrm.h)
+    snoopy_tsrm_libcGuard_enter();
+    getloginStatus = getlogin_r(login, loginSizeMaxWithNull);
+    snoopy_tsrm_libcGuard_leave();
+    if (0 != getloginStatus) {
         loginptr = getenv("SUDO_USER");
         if (!loginptr) {
             loginptr = getenv("LOGNAME");
